@@ -1106,7 +1106,8 @@ class Reader(ABC):
             LOG.error("Cannot perform timestamp correction. Scanline number "
                       "does not increase monotonically.")
             results["fail_reason"] = "Scanline number jumps backwards"
-            return results
+            raise TimestampMismatch("Scanline number does not increase "
+                                    "monotonically. Cannot perform correction.")
 
         # Convert time to milliseconds since 1970-01-01
         t = self._times_as_np_datetime64.astype("i8")
@@ -1114,8 +1115,7 @@ class Reader(ABC):
             t0_head = np.array([self.get_header_timestamp().isoformat()],
                                dtype="datetime64[ms]").astype("i8")[0]
         except ValueError as err:
-            LOG.error("Cannot perform timestamp correction: %s", err)
-            return
+            raise TimestampMismatch("Cannot perform timestamp correction: %s" % err)
 
         # Compute ideal timestamps based on the scanline number. Still
         # without offset, i.e. scanline 0 has timestamp 1970-01-01 00:00
